@@ -165,6 +165,21 @@ class GanttMatplotlib(Contract):
                     want_lab = (self.START + i * self.DELTA).strftime("%H:%M") if case["cal"] == "start+delta" else f"{i * self.DELTA}"
                     ok = ok and lab == want_lab
             out.append(Clause("draws[calendar times: one tick per instant 0 .. horizon, labelled start_time + i * delta_time]", And(z3.BoolVal(bool(ok)), *eqs), props=("C17",), kind="equals", bounded="horizon <= 3 (tick labels built by an unrolled loop)"))
+        else:
+            # integer time axis: one tick per instant 0 .. horizon (a tick beyond would widen the axis)
+            xt = calls(log, "ax0", "set_xticks")
+            ok = len(xt) == 1 and len(xt[0][0]) >= 1
+            eqs = []
+            if ok:
+                locs = xt[0][0][0]
+                if isinstance(locs, sym.SymRange):
+                    lo, hi = locs.bounds()
+                    eqs += [T(lo) == 0, T(hi) == T(sol.horizon) + 1]
+                else:
+                    locs = list(locs)
+                    eqs.append(T(sol.horizon) + 1 == len(locs))
+                    ok = locs == list(range(len(locs)))
+            out.append(Clause("draws[integer time axis: one tick per instant 0 .. horizon]", And(z3.BoolVal(bool(ok)), *eqs), props=("C17",), kind="equals"))
         out.append(Clause("state[rendering succeeds]", z3.BoolVal(bool(ctx["ok"])), props=("C17",), kind="state"))
         return out
 
